@@ -53,3 +53,19 @@ def find_child(
             if child_id == id:
                 return (child, i)
     return (None, None)
+
+
+def find_child_by_id(
+        parent: Element,
+        child_tag: str,
+        id: Optional[str]
+    ) -> Tuple[Optional[Element], Optional[int]]:
+    """
+    Find the element with *child_tag* and the given *id* in *parent* and return
+    ``(child, index)`` or ``(None, None)`` if not found. Unlike
+    :func:`find_child`, a missing *id* (``None``, e.g. taken from a blank ID tag
+    in a message) matches nothing rather than the first child.
+    """
+    if id is None:
+        return (None, None)
+    return find_child(parent=parent, child_tag=child_tag, id=id)
